@@ -176,6 +176,8 @@ type vStore struct {
 	loadLog  []string // every Load call
 	failLoad func(n int, name string) bool
 	failStore func(n int, name string) bool
+	failStoreBytes func(b []byte) bool
+	started, completed, failed int
 	nLoad    int
 	nStore   int
 	yieldInStore bool
@@ -206,12 +208,16 @@ func (s *vStore) find(name string) int {
 func (s *vStore) Store(ctx context.Context, name string, b []byte) error {
 	n := s.nStore
 	s.nStore++
+	s.started++
 	if s.yieldInStore {
-		verifYield()
+		storeGate(s)
 	}
-	if s.failStore != nil && s.failStore(n, name) {
+	if (s.failStore != nil && s.failStore(n, name)) || (s.failStoreBytes != nil && s.failStoreBytes(b)) {
+		s.failed++
+		s.completed++
 		return errVStoreFault
 	}
+	defer func() { s.completed++ }()
 	cp := make([]byte, len(b))
 	copy(cp, b)
 	s.storeLog = append(s.storeLog, name)
